@@ -4,7 +4,7 @@ import pres_check as K
 
 EXTRA_VO = PC.EXTRA_VO
 TRUSTED_BASE = K.TRUSTED_COMMON + [
-    "modelled predicate kinds: commitment, equality and revocation (the accumulator sub-protocol run by the library's own MembershipProofCommitting on an element, witness and blinder of the external holder's choosing; its algebra is C06's); set membership uses the same proof type and verifier code shape and is not exercised separately; verifiable encryption: C10",
+    "modelled predicate kinds: commitment, equality and revocation (the accumulator sub-protocol run by the library's own MembershipProofCommitting on an element, witness and blinder of the external holder's choosing; its algebra is C06's); set membership likewise, on the verifier's own accumulator; verifiable encryption: C10",
 ]
 ASSUMPTIONS = ["special soundness turns equal responses into equal extracted values (C01/C17 theorems); binding of Pedersen commitments (discrete log)"]
 
@@ -15,6 +15,9 @@ DEVS = [
     {"dev": {"k": "rev_other_element_shared"}, "target": "r0"},
     {"dev": {"k": "rev_other_element_independent"}, "target": "r0"},
     {"dev": {"k": "omit_pred"}, "target": "r0"},
+    {"dev": {"k": "rev_other_element_shared"}, "target": "m0"},
+    {"dev": {"k": "rev_other_element_independent"}, "target": "m0"},
+    {"dev": {"k": "omit_pred"}, "target": "m0"},
     {"dev": {"k": "reorder_shift_exploit"}, "target": "c0", "need_disclosed": 2},
     {"dev": {"k": "reorder_shift_exploit"}, "target": "c0", "need_disclosed": 3},
     {"dev": {"k": "disc_pad_oob_first"}, "need_disclosed": 1},
@@ -30,9 +33,10 @@ DEVS = [
     {"dev": {"k": "eq_unequal_shared_nonce"}},
 ]
 SHAPES = [dict(n_creds=1, comm=True, n_claims=5), dict(n_creds=1, comm=True, n_claims=4), dict(n_creds=2, eq=True, comm=True, n_claims=5), dict(n_creds=1, comm=True, n_claims=3, disclosed=[]), dict(n_creds=3, eq=True, comm=True, n_claims=4), dict(n_creds=4, eq=True, n_claims=3),
-          dict(n_creds=2, rev=True, one_issuer=True, n_claims=4), dict(n_creds=3, rev=True, one_issuer=True, comm=True, n_claims=4), dict(n_creds=1, rev=True, n_claims=3)]
+          dict(n_creds=2, rev=True, one_issuer=True, n_claims=4), dict(n_creds=3, rev=True, one_issuer=True, comm=True, n_claims=4), dict(n_creds=1, rev=True, n_claims=3),
+          dict(n_creds=1, mem=True, n_claims=4), dict(n_creds=2, mem=True, rev=True, comm=True, one_issuer=True, n_claims=5)]
 
 
 def explore(ctx):
     return K.explore_generic("C05", ctx, DEVS, SHAPES, {"C05"},
-                             "(accumulator sub-protocol of a revocation statement run on another credential's identifier and handle with the shared and with an independent blinder, commitment sub-protocol run on a substitute value with the shared and with an independent nonce, predicate proof omitted, disclosed-index list padded / reversed / aliased / shortened so that the index->slot walk would shift, signature proof with a foreign inner id, wrong secret)")
+                             "(accumulator sub-protocol of a revocation statement run on another credential's identifier and handle, of a set-membership statement run on another element of the set, with the shared and with an independent blinder, commitment sub-protocol run on a substitute value with the shared and with an independent nonce, predicate proof omitted, disclosed-index list padded / reversed / aliased / shortened so that the index->slot walk would shift, signature proof with a foreign inner id, wrong secret)")
